@@ -9,7 +9,12 @@
           incident-cell rebuild and the vertex removal itself;
  REPAIR   in the Delaunay layer, when the repair policy fires, Ok lies behind the success edge of
           the (post-condition-verified) flip repair.
-Not decided: Level 1-3 validity of the fan triangulation itself (star-shapedness is geometric)."""
+ POSTVALID the fan is a heuristic fill (not a valid retriangulation for every vertex, e.g. on the hull):
+          the retriangulation reports success only behind a call that covers every core Level-3
+          validator (so an unsuitable fan is rolled back by TXN instead of being returned as Ok).
+          Violated today: known finding F13 (run-time witnesses are all Level-3 failures; Level 2 is not
+          demanded because no Level-2 witness exists).
+Not decided: whether a valid fan exists (geometric); the property allows "or no change"."""
 import flow
 import gate
 import pair
@@ -39,6 +44,7 @@ def run(ctx):
     ctx.rule('UNKNOWN', 'unknown vertex => no mutation reachable and Ok(0)')
     ctx.rule('POSTFILL', 'fan retriangulation Ok lies behind the local facet / orientation / incidence checks')
     ctx.rule('REPAIR', 'when the repair policy fires, Ok lies behind the success edge of the flip repair')
+    ctx.rule('POSTVALID', 'fan retriangulation Ok lies behind a cumulative Level 3 validation of the result')
     for cfg in ctx.cfgs:
         prog = ctx.prog(cfg)
         mod = ctx.mod(cfg)
@@ -117,6 +123,16 @@ def run(ctx):
                 r = gate.must_pass(prog, lv, cb, {leaf}, mode='any')
                 ctx.ob('POSTFILL', '%s|%s' % (TRI_RM, leaf.rsplit('::', 1)[-1]), cfg, r['ok'], gate.describe(cb, r),
                        site='%s:%d' % (cb.file, cb.line))
+        # ---- POSTVALID
+        import tables
+        for cb in clos:
+            for lname, leafset in (('L3', set(tables.L3_CORE)),):
+                r = gate.must_pass(prog, lv, cb, leafset)
+                detail = gate.describe(cb, r)
+                if not r['ok']:
+                    detail += ('; the fan retriangulation can report success without a validation covering all %d %s checkers: '
+                               'an unsuitable fan (hull vertex) is returned as Ok with an invalid complex' % (len(leafset), lname))
+                ctx.ob('POSTVALID', '%s|%s' % (TRI_RM, lname), cfg, r['ok'], detail, site='%s:%d' % (cb.file, cb.line))
         # ---- REPAIR
         b = prog.bodies[DT_RM]
         te = gate.predicate_edges(b, {SHOULD}, True)
@@ -126,6 +142,30 @@ def run(ctx):
             r = gate.must_pass(prog, lv, b, {REPAIR}, mode='any', starts=sorted({d for (_, d) in te}))
             ctx.ob('REPAIR', DT_RM, cfg, r['ok'], 'from the true edge of should_run_delaunay_repair_for: ' + gate.describe(b, r),
                    site='%s:%d' % (b.file, b.line))
+        # ---- REPAIR-ARG: "with automatic repair enabled" means policy != Never; the insertion counter counts
+        # insertions and is not advanced by a removal, so the decision to repair after a removal may not read it
+        # (EveryN keyed on it would skip the repair off-cycle)
+        import valueflow
+        al = mod.aliases(DT_RM)
+        n_sites = 0
+        for bb, t in b.calls():
+            if (t.resolved or t.callee) != SHOULD:
+                continue
+            n_sites += 1
+            reads = []
+            for o in t.args[1:]:
+                if o.place is None:
+                    continue
+                for leaf in valueflow.sources(b, al, o.place.local):
+                    if leaf[0] == 'place' and leaf[1][1] and leaf[1][1][-1] == 'delaunay_repair_insertion_count':
+                        reads.append('.'.join(leaf[1][1]))
+            ctx.ob('REPAIR', DT_RM + '|counter-independent', cfg, not reads,
+                   'arguments of should_run_delaunay_repair_for at the removal site %s' % (
+                       'do not read the insertion counter' if not reads else
+                       'read %s: with DelaunayRepairPolicy::EveryN the post-removal repair is skipped whenever the insertion '
+                       'counter is off-cycle, although automatic repair is enabled' % sorted(set(reads))),
+                   site='%s:%d' % (b.file, t.line))
+        ctx.floor('should_run_delaunay_repair_for call sites in remove_vertex', 1, n_sites, cfg)
         if cfg == ctx.cfgs[0]:
             for o in ctx.obligations[:8]:
                 ctx.sample({'rule': o['rule'], 'key': o['key'], 'status': o['status'], 'detail': o['detail'][:160]})
